@@ -173,8 +173,132 @@ theorem wfs_shift (G : GCtx) (pi : PInfo) (dep0 dep : Nat) (hi0 hi : Nat → Wor
 
 /-! ### The program context of a compilation -/
 
+/-- The global declarations of the class: variables, and arrays whose length is a literal. -/
+def isGDecl : X.Decl → Bool
+  | .var _ => true
+  | .array _ (.num k) => decide (0 ≤ k.toInt)
+  | _ => false
+
+/-- What `X.bindGlobals` makes of such declarations: the environment (arrays numbered from `k`), -/
+def v2Genv : List X.Decl → Nat → List (String × GBind)
+  | [], _ => []
+  | .var n :: ds, k => (n, .var) :: v2Genv ds k
+  | .array n _ :: ds, k => (n, .array k) :: v2Genv ds (k + 1)
+  | .val n _ :: ds, k => (n, .var) :: v2Genv ds k
+
+/-- the store of the global variables, -/
+def v2Gv : List X.Decl → List (String × Option Word)
+  | [] => []
+  | .var n :: ds => (n, none) :: v2Gv ds
+  | _ :: ds => v2Gv ds
+
+/-- and the lengths of the arrays. -/
+def v2Sizes : List X.Decl → List Nat
+  | [] => []
+  | .array _ (.num k) :: ds => k.toNat :: v2Sizes ds
+  | .array _ _ :: ds => 0 :: v2Sizes ds
+  | _ :: ds => v2Sizes ds
+
+def v2Arrs (ds : List X.Decl) : Array (Array (Option Word)) :=
+  ((v2Sizes ds).map fun len => Array.replicate len none).toArray
+
+theorem bindGlobals_v2 : ∀ (ds : List X.Decl) (env : List (String × GBind)) (gv : List (String × Option Word))
+    (arrs : Array (Array (Option Word))) (tot : Nat) r, ds.all isGDecl = true →
+    X.bindGlobals ds env gv arrs tot = .ok r →
+    r = (env.reverse ++ v2Genv ds arrs.size, gv.reverse ++ v2Gv ds, arrs ++ v2Arrs ds) := by
+  intro ds
+  induction ds with
+  | nil =>
+    intro env gv arrs tot r _ h
+    simp only [X.bindGlobals, Except.ok.injEq] at h
+    simp [← h, v2Genv, v2Gv, v2Arrs, v2Sizes]
+  | cons d rest ih =>
+    intro env gv arrs tot r hc h
+    simp only [List.all_cons, Bool.and_eq_true] at hc
+    cases d with
+    | var n =>
+      unfold X.bindGlobals at h
+      have := ih _ _ _ _ r hc.2 h
+      rw [this]
+      simp [v2Genv, v2Gv, v2Arrs, v2Sizes]
+    | val n e => simp [isGDecl] at hc
+    | array n e =>
+      cases e with
+      | num k =>
+        simp only [isGDecl, decide_eq_true_eq] at hc
+        unfold X.bindGlobals at h
+        simp only [X.constEval, bind, Except.bind] at h
+        rw [if_neg (by omega)] at h
+        split at h
+        · cases h
+        · have := ih _ _ _ _ r hc.2 h
+          rw [this]
+          simp [v2Genv, v2Gv, v2Arrs, v2Sizes]
+      | _ => simp [isGDecl] at hc
+
+theorem v2Genv_names : ∀ (ds : List X.Decl) (k : Nat), (v2Genv ds k).map (·.1) = ds.map X.Decl.name := by
+  intro ds
+  induction ds with
+  | nil => intro k; rfl
+  | cons d rest ih =>
+    intro k
+    cases d <;> simp [v2Genv, X.Decl.name, ih]
+
+theorem v2Genv_kinds : ∀ (ds : List X.Decl) (k : Nat) (n : String) (b : GBind), (n, b) ∈ v2Genv ds k →
+    b = .var ∨ ∃ id, b = .array id := by
+  intro ds
+  induction ds with
+  | nil => intro k n b h; simp [v2Genv] at h
+  | cons d rest ih =>
+    intro k n b h
+    cases d with
+    | var m =>
+      simp only [v2Genv, List.mem_cons, Prod.mk.injEq] at h
+      rcases h with ⟨_, hb⟩ | h
+      · exact Or.inl hb
+      · exact ih _ n b h
+    | val m e =>
+      simp only [v2Genv, List.mem_cons, Prod.mk.injEq] at h
+      rcases h with ⟨_, hb⟩ | h
+      · exact Or.inl hb
+      · exact ih _ n b h
+    | array m e =>
+      simp only [v2Genv, List.mem_cons, Prod.mk.injEq] at h
+      rcases h with ⟨_, hb⟩ | h
+      · exact Or.inr ⟨k, hb⟩
+      · exact ih _ n b h
+
+theorem v2Gv_none : ∀ (ds : List X.Decl) (n : String) (o : Option Word), (v2Gv ds).lookup n = some o → o = none := by
+  intro ds
+  induction ds with
+  | nil => intro n o h; simp [v2Gv] at h
+  | cons d rest ih =>
+    intro n o h
+    cases d with
+    | var m =>
+      simp only [v2Gv, List.lookup_cons] at h
+      split at h
+      · simpa using h.symm
+      · exact ih n o h
+    | val m e => exact ih n o h
+    | array m e => exact ih n o h
+
+/-- Every cell of every array of the start state is unassigned. -/
+theorem v2Arrs_none (ds : List X.Decl) (id : Nat) (cells : Array (Option Word)) (h : (v2Arrs ds)[id]? = some cells)
+    (idx : Nat) (w : Word) : cells[idx]? ≠ some (some w) := by
+  unfold v2Arrs at h
+  simp only [List.getElem?_toArray, List.getElem?_map, Option.map_eq_some_iff] at h
+  obtain ⟨len, _, hc⟩ := h
+  subst hc
+  intro hh
+  by_cases hlt : idx < len
+  · rw [Array.getElem?_eq_getElem (by simpa using hlt)] at hh
+    simp at hh
+  · rw [Array.getElem?_eq_none (by simpa using hlt)] at hh
+    simp at hh
+
 def v2Xc (P : X.Program) (fuel : Nat) : X.Ctx :=
-  { genv := P.globals.map (fun d => (d.name, GBind.var)) ++ P.procs.map (fun p => (p.name, GBind.proc p)),
+  { genv := v2Genv P.globals 0 ++ P.procs.map (fun p => (p.name, GBind.proc p)),
     impure := X.impureProcs P, limit := fuel }
 
 def procLen (cg : CGOut) (p : X.Proc) (i : Nat) (code : Code) : Nat :=
@@ -212,7 +336,9 @@ def mkG (pk : Bool) (P : X.Program) (st : Stages) (img : Image) (fuel : Nat) (pr
     gloc := v2Gloc st.cg (v1Env st img),
     spv := (spValue st.cg.globalsOffset).toNat, smax := smaxOf st.cg procs,
     lo := (spValue st.cg.globalsOffset).toNat - X.maxDepth * smaxOf st.cg procs,
-    pk := pk }
+    pk := pk,
+    asize := fun id => ((v2Sizes P.globals)[id]?).getD 0,
+    abase := fun id => 200000 - ((v2Sizes P.globals).take (id + 1)).sum }
 
 /-! ### The decidable check -/
 
@@ -586,60 +712,92 @@ theorem lookup_map_some {α β} (f : α → String) (g : α → β) : ∀ (l : L
       · exact absurd h hx
       · exact ih n h
 
+theorem lookup_mem_pair {β} : ∀ (l : List (String × β)) (n : String) (b : β), l.lookup n = some b → (n, b) ∈ l := by
+  intro l
+  induction l with
+  | nil => intro n b h; simp at h
+  | cons e rest ih =>
+    intro n b h
+    obtain ⟨k, v⟩ := e
+    simp only [List.lookup_cons] at h
+    by_cases hk : n == k
+    · simp only [hk] at h
+      have : n = k := by simpa using hk
+      simp only [Option.some.injEq] at h
+      subst this; subst h
+      exact List.mem_cons_self
+    · simp only [hk] at h
+      exact List.mem_cons_of_mem _ (ih n b h)
+
 section genv
 variable (P : X.Program) (fuel : Nat)
 
 theorem v2_genv_lookup (n : String) :
     (v2Xc P fuel).genv.lookup n =
-      ((P.globals.map fun d => (d.name, GBind.var)).lookup n).or ((P.procs.map fun p => (p.name, GBind.proc p)).lookup n) := by
+      ((v2Genv P.globals 0).lookup n).or ((P.procs.map fun p => (p.name, GBind.proc p)).lookup n) := by
   simp only [v2Xc, List.lookup_append]
 
-theorem v2_genv_vars (hnd : (P.globals.map X.Decl.name ++ P.procs.map (·.name)).Nodup) (n : String) :
-    n ∈ P.globals.map X.Decl.name ↔ (v2Xc P fuel).genv.lookup n = some .var := by
-  rw [v2_genv_lookup]
-  constructor
-  · intro h
-    obtain ⟨b, hb⟩ := lookup_map_some X.Decl.name (fun _ => GBind.var) P.globals n h
-    rw [hb]
-    obtain ⟨_, _, _, h2⟩ := lookup_map_val _ _ _ _ _ hb
-    simp [← h2]
-  · intro h
-    cases hg : (P.globals.map fun d => (d.name, GBind.var)).lookup n with
-    | some b =>
-      obtain ⟨x, hx, h1, _⟩ := lookup_map_val _ _ _ _ _ hg
-      exact List.mem_map.mpr ⟨x, hx, h1⟩
-    | none =>
-      rw [hg] at h
-      simp only [Option.none_or] at h
-      obtain ⟨_, _, _, h2⟩ := lookup_map_val _ _ _ _ _ h
-      simp at h2
+theorem v2_glob_lookup (n : String) (b : GBind) (h : (v2Genv P.globals 0).lookup n = some b) :
+    n ∈ P.globals.map X.Decl.name ∧ (b = .var ∨ ∃ id, b = .array id) := by
+  have hm := lookup_mem_pair _ _ _ h
+  refine ⟨?_, v2Genv_kinds _ _ n b hm⟩
+  rw [← v2Genv_names P.globals 0]
+  exact List.mem_map.mpr ⟨(n, b), hm, rfl⟩
 
-theorem v2_no_vals (n : String) (w : Word) : (v2Xc P fuel).genv.lookup n ≠ some (.val w) := by
-  rw [v2_genv_lookup]
-  intro h
-  cases hg : (P.globals.map fun d => (d.name, GBind.var)).lookup n with
-  | some b =>
-    rw [hg] at h
-    obtain ⟨_, _, _, h2⟩ := lookup_map_val _ _ _ _ _ hg
-    simp only [Option.some_or, Option.some.injEq] at h
-    rw [h] at h2
-    simp at h2
+theorem v2_glob_some (n : String) (h : n ∈ P.globals.map X.Decl.name) : ∃ b, (v2Genv P.globals 0).lookup n = some b := by
+  cases hl : (v2Genv P.globals 0).lookup n with
+  | some b => exact ⟨b, rfl⟩
+  | none =>
+    exfalso
+    rw [← v2Genv_names P.globals 0] at h
+    obtain ⟨⟨m, b⟩, hm, hn⟩ := List.mem_map.mp h
+    simp only at hn
+    subst hn
+    have : (v2Genv P.globals 0).lookup m ≠ none := by
+      intro hnone
+      have := List.lookup_eq_none_iff.mp hnone (m, b) hm
+      simp at this
+    exact this hl
+
+theorem v2_genv_vars (n : String) (h : (v2Xc P fuel).genv.lookup n = some .var) : n ∈ P.globals.map X.Decl.name := by
+  rw [v2_genv_lookup] at h
+  cases hg : (v2Genv P.globals 0).lookup n with
+  | some b => exact (v2_glob_lookup P n b hg).1
   | none =>
     rw [hg] at h
     simp only [Option.none_or] at h
     obtain ⟨_, _, _, h2⟩ := lookup_map_val _ _ _ _ _ h
     simp at h2
 
-theorem v2_no_arrs (n : String) (id : Nat) : (v2Xc P fuel).genv.lookup n ≠ some (.array id) := by
+theorem v2_genv_arrs (n : String) (id : Nat) (h : (v2Xc P fuel).genv.lookup n = some (.array id)) :
+    n ∈ P.globals.map X.Decl.name := by
+  rw [v2_genv_lookup] at h
+  cases hg : (v2Genv P.globals 0).lookup n with
+  | some b => exact (v2_glob_lookup P n b hg).1
+  | none =>
+    rw [hg] at h
+    simp only [Option.none_or] at h
+    obtain ⟨_, _, _, h2⟩ := lookup_map_val _ _ _ _ _ h
+    simp at h2
+
+theorem v2_gnames_genv (n : String) (h : n ∈ P.globals.map X.Decl.name) :
+    (v2Xc P fuel).genv.lookup n = some .var ∨ ∃ id, (v2Xc P fuel).genv.lookup n = some (.array id) := by
+  rw [v2_genv_lookup]
+  obtain ⟨b, hb⟩ := v2_glob_some P n h
+  rw [hb]
+  simp only [Option.some_or, Option.some.injEq]
+  rcases (v2_glob_lookup P n b hb).2 with h1 | ⟨id, h1⟩
+  · exact Or.inl h1
+  · exact Or.inr ⟨id, h1⟩
+
+theorem v2_no_vals (n : String) (w : Word) : (v2Xc P fuel).genv.lookup n ≠ some (.val w) := by
   rw [v2_genv_lookup]
   intro h
-  cases hg : (P.globals.map fun d => (d.name, GBind.var)).lookup n with
+  cases hg : (v2Genv P.globals 0).lookup n with
   | some b =>
     rw [hg] at h
-    obtain ⟨_, _, _, h2⟩ := lookup_map_val _ _ _ _ _ hg
     simp only [Option.some_or, Option.some.injEq] at h
-    rw [h] at h2
-    simp at h2
+    rcases (v2_glob_lookup P n b hg).2 with h1 | ⟨id, h1⟩ <;> rw [h1] at h <;> simp at h
   | none =>
     rw [hg] at h
     simp only [Option.none_or] at h
@@ -649,13 +807,11 @@ theorem v2_no_arrs (n : String) (id : Nat) : (v2Xc P fuel).genv.lookup n ≠ som
 theorem v2_proc_lookup (f : String) (p : X.Proc) (h : (v2Xc P fuel).genv.lookup f = some (.proc p)) :
     p ∈ P.procs ∧ p.name = f := by
   rw [v2_genv_lookup] at h
-  cases hg : (P.globals.map fun d => (d.name, GBind.var)).lookup f with
+  cases hg : (v2Genv P.globals 0).lookup f with
   | some b =>
     rw [hg] at h
-    obtain ⟨_, _, _, h2⟩ := lookup_map_val _ _ _ _ _ hg
     simp only [Option.some_or, Option.some.injEq] at h
-    rw [h] at h2
-    simp at h2
+    rcases (v2_glob_lookup P f b hg).2 with h1 | ⟨id, h1⟩ <;> rw [h1] at h <;> simp at h
   | none =>
     rw [hg] at h
     simp only [Option.none_or] at h
@@ -670,9 +826,10 @@ theorem v2_pnames_mem (hnd : (P.globals.map X.Decl.name ++ P.procs.map (·.name)
   have hng : f ∉ P.globals.map X.Decl.name := by
     intro hg
     exact (List.nodup_append.mp hnd).2.2 f hg f hf rfl
-  have h1 : (P.globals.map fun d => (d.name, GBind.var)).lookup f = none := by
+  have h1 : (v2Genv P.globals 0).lookup f = none := by
     apply lookup_none_of_not_mem
-    simpa [List.map_map] using hng
+    rw [v2Genv_names]
+    exact hng
   rw [h1]
   simp only [Option.none_or]
   obtain ⟨b, hb⟩ := lookup_map_some (fun p : X.Proc => p.name) (fun p => GBind.proc p) P.procs f hf
@@ -682,19 +839,19 @@ theorem v2_pnames_mem (hnd : (P.globals.map X.Decl.name ++ P.procs.map (·.name)
 theorem v2_genv_none (n : String) (h1 : n ∉ P.globals.map X.Decl.name) (h2 : n ∉ P.procs.map (·.name)) :
     (v2Xc P fuel).genv.lookup n = none := by
   apply lookup_none_of_not_mem
-  simp only [v2Xc, List.map_append, List.map_map, List.mem_append, not_or]
-  exact ⟨by simpa using h1, by simpa using h2⟩
+  simp only [v2Xc, List.map_append, List.mem_append, not_or]
+  refine ⟨by rw [v2Genv_names]; exact h1, by simpa [List.map_map] using h2⟩
 
 end genv
 
 /-! ### The run of the reference semantics -/
 
 def v2St0 (P : X.Program) (inp : X.Input) : X.St :=
-  { gvars := P.globals.map (fun d => (d.name, none)), arrays := #[], locals := [],
+  { gvars := v2Gv P.globals, arrays := v2Arrs P.globals, locals := [],
     io := Isa.IOSt.init inp.stdin inp.files, calls := [], steps := 0, depth := 0 }
 
 theorem run_v2 (P : X.Program) (inp : X.Input) (fuel : Nat) (β : X.Behaviour)
-    (hg : P.globals.all isVarDecl = true) (hrun : X.run P inp fuel = .defined β) :
+    (hg : P.globals.all isGDecl = true) (hrun : X.run P inp fuel = .defined β) :
     ∃ m, P.procs.find? (·.name == "main") = some m ∧
       ((∃ r s, X.callUser fuel (v2Xc P fuel) m [] (v2St0 P inp) = .ok r s ∧
           β.exit = 0 ∧ β.events = s.io.log.reverse ∧ β.stdinConsumed = inp.stdin.length - s.io.stdin.length ∧
@@ -708,9 +865,13 @@ theorem run_v2 (P : X.Program) (inp : X.Input) (fuel : Nat) (β : X.Behaviour)
   | ok u =>
     rw [hcp] at hrun
     simp only at hrun
-    rw [bindGlobals_vars P.globals [] [] #[] 0 hg] at hrun
-    simp only [List.reverse_nil, List.nil_append] at hrun
-    cases hck : X.checkProcs (P.globals.map (fun d => (d.name, GBind.var)) ++ P.procs.map fun p => (p.name, GBind.proc p)) P.procs with
+    cases hb : X.bindGlobals P.globals [] [] #[] 0 with
+    | error w => rw [hb] at hrun; simp at hrun
+    | ok r =>
+    have hr := bindGlobals_v2 P.globals [] [] #[] 0 r hg hb
+    rw [hb, hr] at hrun
+    simp only [List.reverse_nil, List.nil_append, List.size_toArray, List.length_nil, Array.empty_append] at hrun
+    cases hck : X.checkProcs (v2Genv P.globals 0 ++ P.procs.map fun p => (p.name, GBind.proc p)) P.procs with
     | error w => rw [hck] at hrun; simp at hrun
     | ok u2 =>
       rw [hck] at hrun
@@ -721,9 +882,9 @@ theorem run_v2 (P : X.Program) (inp : X.Input) (fuel : Nat) (β : X.Behaviour)
         rw [hfm] at hrun
         simp only at hrun
         refine ⟨m, rfl, ?_⟩
-        have hctx : ({ genv := P.globals.map (fun d => (d.name, GBind.var)) ++ P.procs.map (fun p => (p.name, GBind.proc p)),
+        have hctx : ({ genv := v2Genv P.globals 0 ++ P.procs.map (fun p => (p.name, GBind.proc p)),
                        impure := X.impureProcs P, limit := fuel } : X.Ctx) = v2Xc P fuel := rfl
-        have hst : ({ gvars := P.globals.map (fun d => (d.name, (none : Option Word))), arrays := #[], locals := [],
+        have hst : ({ gvars := v2Gv P.globals, arrays := v2Arrs P.globals, locals := [],
                       io := Isa.IOSt.init inp.stdin inp.files, calls := [], steps := 0, depth := 0 } : X.St)
             = v2St0 P inp := rfl
         rw [hctx, hst] at hrun
@@ -845,23 +1006,6 @@ def pureOkB (xc : X.Ctx) : Bool :=
     | .proc p => xc.impure.contains e.1 || !(X.impS (imp0 xc p.localNames) p.isLocalVar p.body)
     | _ => true
 
-theorem lookup_mem_pair {β} : ∀ (l : List (String × β)) (n : String) (b : β), l.lookup n = some b → (n, b) ∈ l := by
-  intro l
-  induction l with
-  | nil => intro n b h; simp at h
-  | cons e rest ih =>
-    intro n b h
-    obtain ⟨k, v⟩ := e
-    simp only [List.lookup_cons] at h
-    by_cases hk : n == k
-    · simp only [hk] at h
-      have : n = k := by simpa using hk
-      simp only [Option.some.injEq] at h
-      subst this; subst h
-      exact List.mem_cons_self
-    · simp only [hk] at h
-      exact List.mem_cons_of_mem _ (ih n b h)
-
 theorem pureOkB_sound (xc : X.Ctx) (h : pureOkB xc = true) : PureOk xc := by
   refine ⟨fun f p hl hi => ?_⟩
   unfold pureOkB at h
@@ -870,11 +1014,32 @@ theorem pureOkB_sound (xc : X.Ctx) (h : pureOkB xc = true) : PureOk xc := by
   simp only [hi, Bool.false_or, Bool.not_eq_true'] at this
   exact this
 
+/-- The arrays lie above the initial stack pointer, inside the memory, and do not overlap. -/
+def arrLayoutCheck (G : GCtx) (narr : Nat) : Bool :=
+  (List.range narr).all (fun id => decide (G.asize id = 0) ||
+    (decide (G.spv + 2 < G.abase id) && decide (G.abase id + G.asize id ≤ memWords))) &&
+  (List.range narr).all (fun i => (List.range narr).all fun j =>
+    decide (i = j) || decide (G.asize i = 0) || decide (G.asize j = 0) ||
+    decide (G.abase i + G.asize i ≤ G.abase j) || decide (G.abase j + G.asize j ≤ G.abase i))
+
+/-- The data word behind the label of a global array holds the array's address. -/
+def arrPtrCheck (cg : CGOut) (env : Env) (abase : Nat → Nat) (e : String × GBind) : Bool :=
+  match e.2 with
+  | .array id =>
+    match cg.tbl.find? ("", e.1) with
+    | some sym =>
+      located sym &&
+      match labelIdx env.ds sym.globalLabel with
+      | some j => decide (env.ds[j + 1]? = some (.data (abase id : Int)))
+      | none => false
+    | none => false
+  | _ => true
+
 open V1Pos in
 /-- **The decidable side condition of the whole-program theorem for programs with several
     procedures** (`pk`: with calls of pure functions in operands). -/
 def vCheck (pk : Bool) (P : X.Program) (st : Stages) (img : Image) : Bool :=
-  P.globals.all isVarDecl &&
+  P.globals.all isGDecl &&
   match genProcs st.cg P.procs 0 { labelCount := P.globals.length } (2 + st.cg.data.length + 8) with
   | none => false
   | some procs =>
@@ -888,7 +1053,8 @@ def vCheck (pk : Bool) (P : X.Program) (st : Stages) (img : Image) : Bool :=
     (match procs.find? (fun pi => pi.p.name == "main") with
      | some pm => !pm.p.isFunc
      | none => false) &&
-    (!pk || pureOkB (v2Xc P 0))
+    (!pk || pureOkB (v2Xc P 0)) &&
+    arrLayoutCheck G (v2Sizes P.globals).length && (v2Genv P.globals 0).all (arrPtrCheck st.cg G.env G.abase)
 
 /-- The check for the class V2 (calls only as statements and as whole right-hand sides). -/
 def v2Check (P : X.Program) (st : Stages) (img : Image) : Bool := vCheck false P st img
@@ -906,7 +1072,7 @@ theorem globalCheck_fuel (pk : Bool) (P : X.Program) (st : Stages) (img : Image)
 theorem v_setup (pk : Bool) (P : X.Program) (st : Stages) (img : Image) (inp : X.Input) (fuel : Nat)
     (hasm : assembleDirs st.optimised = .ok img) (hchk : vCheck pk P st img = true) :
     ∃ (G : GCtx) (pm : PInfo), G.OK ∧ G.env = v1Env st img ∧ G.xc = v2Xc P fuel ∧ Good st.optimised img ∧
-      Peep st.lowered st.optimised (peepSt st.lowered) ∧ P.globals.all isVarDecl = true ∧
+      Peep st.lowered st.optimised (peepSt st.lowered) ∧ P.globals.all isGDecl = true ∧
       pm ∈ G.procs ∧ pm.p.name = "main" ∧ pm.p.isFunc = false ∧
       (∀ m, P.procs.find? (·.name == "main") = some m → pm.p = m) ∧
       At G.env.ds 0 [.ref 0x9 "_start" true, .data (spValue st.cg.globalsOffset)] ∧
@@ -920,7 +1086,7 @@ theorem v_setup (pk : Bool) (P : X.Program) (st : Stages) (img : Image) (inp : X
   · simp at hchk
   rename_i procs hprocs
   simp only [Bool.and_eq_true, decide_eq_true_eq, List.all_eq_true] at hchk
-  obtain ⟨⟨⟨⟨⟨⟨⟨⟨⟨⟨⟨c1, c3⟩, c4⟩, c5⟩, c6⟩, cproc⟩, cglob⟩, chead⟩, cstub⟩, c0⟩, cmain⟩, cpure⟩ := hchk
+  obtain ⟨⟨⟨⟨⟨⟨⟨⟨⟨⟨⟨⟨⟨c1, c3⟩, c4⟩, c5⟩, c6⟩, cproc⟩, cglob⟩, chead⟩, cstub⟩, c0⟩, cmain⟩, cpure⟩, carr⟩, cptr⟩ := hchk
   obtain ⟨hmap, hgen⟩ := genProcs_spec st.cg _ _ _ _ _ hprocs
   have g : Good st.optimised img := ⟨parsedOkB_sound _ c3, c4, assembleDirs_ok _ _ hasm, c5, c6⟩
   have F := facts_of_good st.optimised img g
@@ -972,6 +1138,32 @@ theorem v_setup (pk : Bool) (P : X.Program) (st : Stages) (img : Image) (inp : X
     have h41 : 4 / 4 = 1 := rfl
     rw [h41] at hm1
     rw [hm1, hGspv, ← W_ofNat, Int.toNat_of_nonneg c0]
+  have hasz : ∀ id, G.asize id = ((v2Sizes P.globals)[id]?).getD 0 := by intro id; rw [hG]; rfl
+  have harrL : ∀ id, G.asize id ≠ 0 → (G.spv + 2 < G.abase id ∧ G.abase id + G.asize id ≤ memWords) ∧
+      ∀ id2, id ≠ id2 → G.asize id2 ≠ 0 →
+        G.abase id + G.asize id ≤ G.abase id2 ∨ G.abase id2 + G.asize id2 ≤ G.abase id := by
+    have hlt : ∀ id, G.asize id ≠ 0 → id < (v2Sizes P.globals).length := by
+      intro id hz
+      by_cases h : id < (v2Sizes P.globals).length
+      · exact h
+      · exfalso
+        apply hz
+        rw [hasz, List.getElem?_eq_none (by omega)]
+        rfl
+    have carr' : arrLayoutCheck G (v2Sizes P.globals).length = true := by rw [hG]; exact carr
+    unfold arrLayoutCheck at carr'
+    simp only [Bool.and_eq_true, List.all_eq_true, List.mem_range, Bool.or_eq_true, decide_eq_true_eq] at carr'
+    intro id hz
+    refine ⟨?_, fun id2 hne hz2 => ?_⟩
+    · rcases carr'.1 id (hlt id hz) with h | h
+      · exact absurd h hz
+      · exact h
+    · rcases carr'.2 id (hlt id hz) id2 (hlt id2 hz2) with (((h | h) | h) | h) | h
+      · exact absurd h hne
+      · exact absurd h hz
+      · exact absurd h hz2
+      · exact Or.inl h
+      · exact Or.inr h
   have ok : G.OK := by
     apply ok_of_checks G (img.bytes.length / 4) hproc hglob
     · intro pi hpi
@@ -989,18 +1181,19 @@ theorem v_setup (pk : Bool) (P : X.Program) (st : Stages) (img : Image) (inp : X
       exact ⟨pi, by rw [hGprocs]; exact hpi, hpp, hn⟩
     · intro n
       rw [hGxc, hGg]
-      exact (v2_genv_vars P fuel hnd n).mpr
+      exact v2_genv_vars P fuel n
     · intro n id h
       rw [hGxc] at h
-      exact absurd h (v2_no_arrs P fuel n id)
+      rw [hGg]
+      exact v2_genv_arrs P fuel n id h
     · intro n hn
       rw [hGg] at hn
       rw [hGxc]
-      exact Or.inl ((v2_genv_vars P fuel hnd n).mp hn)
+      exact v2_gnames_genv P fuel n hn
     · intro id hz
-      exact absurd (by rw [hG]; rfl) hz
-    · intro id1 id2 _ hz
-      exact absurd (by rw [hG]; rfl) hz
+      exact (harrL id hz).1
+    · intro id1 id2 hne hz1 hz2
+      exact (harrL id1 hz1).2 id2 hne hz2
     · intro n w
       rw [hGxc]
       exact v2_no_vals P fuel n w
@@ -1046,13 +1239,58 @@ theorem v_setup (pk : Bool) (P : X.Program) (st : Stages) (img : Image) (inp : X
     have hg0 : GRep G (v2St0 P inp) (Am.boot img).mem := by
       refine ⟨?_, ?_, ?_, ?_⟩
       · intro n w _ hl
-        have := lookup_map_const _ _ _ _ _ hl
+        have := v2Gv_none P.globals n _ hl
         simp at this
       · intro n id h
-        rw [hGxc] at h
-        exact absurd h (v2_no_arrs P fuel n id)
+        rw [hGxc, v2_genv_lookup] at h
+        have hgl : (v2Genv P.globals 0).lookup n = some (.array id) := by
+          cases hg : (v2Genv P.globals 0).lookup n with
+          | some b => rw [hg] at h; simpa using h
+          | none =>
+            rw [hg] at h
+            simp only [Option.none_or] at h
+            obtain ⟨_, _, _, h2⟩ := lookup_map_val _ _ _ _ _ h
+            simp at h2
+        have hck := cptr (n, .array id) (lookup_mem_pair _ _ _ hgl)
+        unfold arrPtrCheck at hck
+        simp only at hck
+        cases hf : st.cg.tbl.find? ("", n) with
+        | none => rw [hf] at hck; simp at hck
+        | some sym =>
+          rw [hf] at hck
+          simp only [Bool.and_eq_true] at hck
+          obtain ⟨hloc, hck⟩ := hck
+          have hGenv0 : (mkG pk P st img 0 procs).env = G.env := by rw [hG]; rfl
+          have hGab : (mkG pk P st img 0 procs).abase = G.abase := by rw [hG]; rfl
+          rw [hGenv0, hGab] at hck
+          cases hj : labelIdx G.env.ds sym.globalLabel with
+          | none => rw [hj] at hck; simp at hck
+          | some j =>
+            rw [hj] at hck
+            simp only [decide_eq_true_eq] at hck
+            obtain ⟨kind, hlab⟩ := labelIdx_some _ _ _ hj
+            obtain ⟨_, hval, _⟩ := hdata (j + 1) _ hck
+            rw [hlabel j kind _ hlab] at hval
+            refine ⟨G.env.addr j / 4, ?_, ?_⟩
+            · rw [hG]
+              show v2Gloc st.cg (v1Env st img) n = _
+              unfold v2Gloc
+              rw [hf]
+              simp only [hloc, if_true]
+              have : labelIdx (v1Env st img).ds sym.globalLabel = some j := by rw [← hGenv]; exact hj
+              rw [this]
+              rfl
+            · rw [hval]
+              exact BitVec.ofInt_natCast 32 _
       · intro id cells h
-        simp [v2St0] at h
+        have h' : (v2Arrs P.globals)[id]? = some cells := h
+        refine ⟨?_, fun idx w hi => absurd hi (v2Arrs_none P.globals id cells h' idx w)⟩
+        rw [hasz]
+        unfold v2Arrs at h'
+        simp only [List.getElem?_toArray, List.getElem?_map, Option.map_eq_some_iff] at h'
+        obtain ⟨len, hl, hc⟩ := h'
+        rw [hl, ← hc]
+        simp
       · intro v l j k hmem hd
         have hdat := ok.const_data v l j k hmem hd
         obtain ⟨_, hval, _⟩ := hdata (j + 1) v hdat
@@ -1063,7 +1301,7 @@ theorem v_setup (pk : Bool) (P : X.Program) (st : Stages) (img : Image) (inp : X
 theorem v2_setup (P : X.Program) (st : Stages) (img : Image) (inp : X.Input) (fuel : Nat)
     (hasm : assembleDirs st.optimised = .ok img) (hchk : v2Check P st img = true) :
     ∃ (G : GCtx) (pm : PInfo), G.OK ∧ G.env = v1Env st img ∧ G.xc = v2Xc P fuel ∧ Good st.optimised img ∧
-      Peep st.lowered st.optimised (peepSt st.lowered) ∧ P.globals.all isVarDecl = true ∧
+      Peep st.lowered st.optimised (peepSt st.lowered) ∧ P.globals.all isGDecl = true ∧
       pm ∈ G.procs ∧ pm.p.name = "main" ∧ pm.p.isFunc = false ∧
       (∀ m, P.procs.find? (·.name == "main") = some m → pm.p = m) ∧
       At G.env.ds 0 [.ref 0x9 "_start" true, .data (spValue st.cg.globalsOffset)] ∧
@@ -1144,7 +1382,7 @@ theorem v2_whole (P : X.Program) (inp : X.Input) (fuel : Nat) (β : X.Behaviour)
 def isV2 (P : X.Program) : Bool :=
   let gn := P.globals.map X.Decl.name
   let pn := P.procs.map (·.name)
-  P.globals.all isVarDecl &&
+  P.globals.all isGDecl &&
   P.procs.all (fun p => p.formals.all isValFormal && p.locals.all isVarDecl && okS4 pn p.body &&
     (p.formals.map X.Formal.name ++ p.locals.map X.Decl.name).all (fun n => !gn.contains n && !pn.contains n)) &&
   (match P.procs.find? (·.name == "main") with
@@ -1189,7 +1427,7 @@ theorem v3_whole (P : X.Program) (inp : X.Input) (fuel : Nat) (β : X.Behaviour)
 def isV3 (P : X.Program) : Bool :=
   let gn := P.globals.map X.Decl.name
   let pn := P.procs.map (·.name)
-  P.globals.all isVarDecl &&
+  P.globals.all isGDecl &&
   P.procs.all (fun p => p.formals.all isValFormal && p.locals.all isVarDecl && okS5 true pn (X.impureProcs P) p.body &&
     (p.formals.map X.Formal.name ++ p.locals.map X.Decl.name).all (fun n => !gn.contains n && !pn.contains n)) &&
   (match P.procs.find? (·.name == "main") with
